@@ -287,6 +287,50 @@ class MainJsonStdout(Harness):
         return label
 
 
+class VerboseLevels(MainJsonStdout):
+    """real main(), text report with -v (status lines printed while the audit runs) at a raised minimum level: what is printed is a subsequence of what is
+    printed at level info - raising the level only removes lines, it never adds or alters one (a filtered status line does not leave a blank line behind)."""
+    ob = 'O3'
+
+    def __init__(self, arch, level):
+        MainJsonStdout.__init__(self, arch)
+        self.level = level
+        self.name = 'verboselevels-%s-%s' % (arch, level)
+
+    def params(self):
+        return {'arch': self.arch, 'level': self.level}
+
+    def inputs(self):
+        return {'batch': zx.fresh_bool('b')}
+
+    def run(self, M, inp):
+        base = {'verbose': True, 'batch': inp['batch'], 'level': 0}
+        r0, _, _, t0 = self.one(M, base, 0)
+        r1, _, _, t1 = self.one(M, dict(base, level=LEVELS.index(self.level)), 0)
+        if isinstance(r0, Exc) or isinstance(r1, Exc):
+            return {'exc': r0 if isinstance(r0, Exc) else r1}
+        a, b = t0.split('\n'), t1.split('\n')
+        i = 0
+        for ln in b:                      # is b a subsequence of a ?
+            while i < len(a) and a[i] != ln:
+                i += 1
+            if i == len(a):
+                return {'r0': r0, 'r1': r1, 'subsequence': False, 'first_extra': ln[:60]}
+            i += 1
+        return {'r0': r0, 'r1': r1, 'subsequence': True, 'first_extra': None}
+
+    def check(self, inp, obs):
+        if 'exc' in obs:
+            yield 'no-exception', False
+            return
+        yield 'raised-level-only-removes-lines', obs['subsequence']
+        yield 'same-status', obs['r0'] == obs['r1']
+
+    def classify(self, inp, obs, label):
+        return label
+
+
+
 SEED_PEERS = {
     'strict-cbc-dups': {'kex': ['curve25519-sha256', 'kex-strict-s-v00@openssh.com'], 'key': ['ssh-ed25519', 'ssh-rsa'],
                         'enc': ['chacha20-poly1305@openssh.com', 'aes128-cbc', 'aes128-cbc', '3des-cbc', 'aes128-ctr'],
@@ -460,6 +504,9 @@ def tasks(tier):
         T.append(JsonVsTextTwoCats(c1, c2))
     for arch in ('weak', 'clean', 'unknown', 'proto-1.99', 'probes-refused', 'probes-no-banner', 'probes-reset'):
         T.append(MainJsonStdout(arch))
+    for arch in ('weak', 'probes-refused', 'proto-1.99'):
+        for lvl in ('warn', 'fail'):
+            T.append(VerboseLevels(arch, lvl))
     for peer in SEED_PEERS:
         for js in (False, True):
             T.append(HashSeedOrder(peer, js))
@@ -481,6 +528,8 @@ def harness_by_name(name, params):
         return HashSeedOrder(p['peer'], p['json'])
     if k == 'mainjson':
         return MainJsonStdout(p['arch'])
+    if k == 'verboselevels':
+        return VerboseLevels(p['arch'], p['level'])
     if k == 'bufferfilter':
         return BufferFilter(p['n'])
     raise KeyError(name)
